@@ -133,6 +133,28 @@ mod verif_bounded_strings {
         }
     }
 
+    // C15 "whatever the library serialises it parses back ... welcome rumors", over the number of relays of the group: a welcome rumor that
+    // create_group hands out must be accepted by the invited user's process_welcome. The case of a group WITHOUT relays FAILS on the unchanged
+    // tree (known finding F27: create_group accepts an empty relay list, the rumor then carries an empty `relays` tag, which
+    // validate_welcome_event refuses) and has its own test and label, so that nothing else hides behind the finding.
+    fn welcome_round_trip(label: &str, n: usize) {
+        let (ak, bk) = (Keys::generate(), Keys::generate());
+        let (a, b) = (create_test_mdk(), create_test_mdk());
+        let mut cfg = create_nostr_group_config_data(vec![ak.public_key()]);
+        cfg.relays = (0..n).map(|i| nostr::RelayUrl::parse(&format!("wss://r{i}.example")).unwrap()).collect();
+        let scen = format!("create_group with {n} relay(s), one invited user");
+        let res = match a.create_group(&ak.public_key(), vec![create_key_package_event(&b, &bk)], cfg) { Ok(r) => r, Err(_) => return };   // refused at creation: nothing was serialised
+        match catch_unwind(AssertUnwindSafe(|| b.process_welcome(&nostr::EventId::all_zeros(), &res.welcome_rumors[0]).map(|_| ()).map_err(|e| format!("{e:?}")))) {
+            Err(_) => fail(label, &scen, "process_welcome PANICKED"),
+            Ok(Err(e)) => fail(label, &scen, &format!("the welcome rumor handed out by create_group is refused by process_welcome: {e}")),
+            Ok(Ok(())) => {}
+        }
+    }
+    #[test]
+    fn welcome_of_every_created_group_is_parsed_back() { for n in [1usize, 2, 3] { welcome_round_trip("strings_bounded.welcome_of_every_created_group_is_parsed_back", n); } }
+    #[test]
+    fn welcome_of_a_group_without_relays_is_parsed_back() { welcome_round_trip("strings_bounded.welcome_of_a_group_without_relays_is_parsed_back", 0); }
+
     // C15 / C17: what create_imeta_tag writes, parse_imeta_tag reads back. Scope: the file names / MIME spellings below.
     #[cfg(feature = "mip04")]
     #[test]
